@@ -153,6 +153,21 @@ pub assume_specification[ bytes::Bytes::split_to ](b: &mut bytes::Bytes, at: usi
     requires at <= buf_seq(old(b)).len(),
     ensures buf_seq(&r) == buf_seq(old(b)).take(at as int), buf_seq(final(b)) == buf_seq(old(b)).skip(at as int);
 
+pub assume_specification[ bytes::Bytes::truncate ](b: &mut bytes::Bytes, len: usize)
+    ensures buf_seq(final(b)) == (if len <= buf_seq(old(b)).len() { buf_seq(old(b)).take(len as int) } else { buf_seq(old(b)) });
+
+pub assume_specification[ bytes::Bytes::clear ](b: &mut bytes::Bytes)
+    ensures buf_seq(final(b)) == Seq::<u8>::empty();
+
+pub assume_specification[ bytes::Bytes::new ]() -> (r: bytes::Bytes)
+    ensures buf_seq(&r) == Seq::<u8>::empty();
+
+pub assume_specification[ bytes::BytesMut::len ](b: &bytes::BytesMut) -> (r: usize)
+    ensures r == buf_seq(b).len(), mem_ok(r as int);
+
+pub assume_specification[ bytes::BytesMut::is_empty ](b: &bytes::BytesMut) -> (r: bool)
+    ensures r == (buf_seq(b).len() == 0);
+
 /// bytes 1.x: `split_off(at)` returns the bytes from `at` on and keeps the first `at`; panics when `at > len`
 pub assume_specification[ bytes::Bytes::split_off ](b: &mut bytes::Bytes, at: usize) -> (r: bytes::Bytes)
     requires at <= buf_seq(old(b)).len(),
@@ -184,6 +199,17 @@ pub trait ExBuf {
     fn get_i32(&mut self) -> (r: i32)
         requires buf_seq(old(self)).len() >= 4,
         ensures buf_seq(final(self)) == buf_seq(old(self)).skip(4), r == be32(buf_seq(old(self))) as i32;
+
+    fn get_u32(&mut self) -> (r: u32)
+        requires buf_seq(old(self)).len() >= 4,
+        ensures buf_seq(final(self)) == buf_seq(old(self)).skip(4), r == be32(buf_seq(old(self)));
+
+    fn get_i16(&mut self) -> (r: i16)
+        requires buf_seq(old(self)).len() >= 2,
+        ensures buf_seq(final(self)) == buf_seq(old(self)).skip(2), r == be16(buf_seq(old(self))) as i16;
+
+    fn has_remaining(&self) -> (r: bool)
+        ensures r == (buf_seq(self).len() > 0);
 }
 
 
@@ -205,6 +231,12 @@ pub trait ExBufMut {
 
     fn put_slice(&mut self, src: &[u8])
         ensures buf_seq(final(self)) == buf_seq(old(self)) + src@;
+
+    fn put_i8(&mut self, n: i8)
+        ensures buf_seq(final(self)) == buf_seq(old(self)) + s1(n as u8);
+
+    fn put_i16(&mut self, n: i16)
+        ensures buf_seq(final(self)) == buf_seq(old(self)) + enc16(n as u16);
 }
 
 pub assume_specification<T: bytes::Buf>[ <bytes::BytesMut as bytes::BufMut>::put::<T> ](b: &mut bytes::BytesMut, src: T)
